@@ -377,6 +377,25 @@ static Result run_box(const Case &c) {
                 if (ro.rc == 0) { if (ro.out != s.frags[0]) r.fail("reconstruct returned wrong fragment"); }
                 else if (demand) r.fail("reconstruct within tolerance failed rc=" + std::to_string(ro.rc));
             }
+            if (e >= 1 && len == lens[2]) {
+                // "any accepted instance can be used": also one whose very first operation is a rebuild (or a decode) of
+                // fragments that another instance of the same configuration wrote
+                int d2 = liberasurecode_instance_create((unsigned)g.backend, &a);
+                if (d2 <= 0) r.fail("second create of an accepted configuration failed rc=" + std::to_string(d2));
+                else {
+                    if ((g.k + g.m) & 1) {
+                        FragSet f3; f3.build(frs, {});
+                        ReconOut ro = reconstruct(d2, f3, s.fraglen, 0);
+                        if (ro.rc == 0) { if (ro.out != s.frags[0]) r.fail("fresh instance: reconstruct as first operation returned a wrong fragment"); }
+                        else if (demand) r.fail("fresh instance: reconstruct as first operation failed rc=" + std::to_string(ro.rc));
+                    }
+                    FragSet f4; f4.build(frs, {});
+                    DecodeOut o2 = decode(d2, f4, s.fraglen, 0);
+                    if (o2.rc == 0) { if (o2.out != data) r.fail("fresh instance: decode returned wrong data"); }
+                    else if (demand) r.fail("fresh instance: decode failed rc=" + std::to_string(o2.rc));
+                    if (liberasurecode_instance_destroy(d2) != 0) r.fail("destroy of the second instance failed");
+                }
+            }
         }
     }
     if (real && g.m >= 1) {
